@@ -77,6 +77,8 @@ pub struct Target {
     /// C16: log2 of the number of searches made with one long-lived finder in
     /// the rare long-history episodes (0 = none)
     pub long_history_log2: u32,
+    /// the multi-GiB episodes (family 99 of C07, C08, C14) are generated
+    pub huge: bool,
 }
 
 struct B {
@@ -536,6 +538,109 @@ impl B {
         }
     }
 
+    /// One finder shared before its first use: one thread makes the first
+    /// search while the others copy it (`as_ref`, `clone`, an iterator) and
+    /// search through the copy. Whatever a finder builds lazily must be
+    /// complete in every copy, whenever the copy is taken.
+    fn scn_copy_vs_first_use(&mut self) {
+        if self.full() || self.threads.len() < 2 {
+            return;
+        }
+        let nlen = self.rng.range(2, 12);
+        let alpha = inputs::alphabet(&mut self.rng);
+        let needle_b = inputs::word(&mut self.rng, nlen, &alpha);
+        let hlen = self.rng.range(16, 30);
+        let mut hay_b: Vec<u8> = inputs::word(&mut self.rng, hlen, &alpha);
+        let at = self.rng.range(0, hay_b.len() - nlen);
+        hay_b[at..at + nlen].copy_from_slice(&needle_b);
+        let rev = self.rng.chance(2, 3);
+        let needle = self.buf(needle_b, None);
+        let hay = self.buf(hay_b, None);
+        let cfg = self.finder_cfg();
+        let f = self.slot(0);
+        self.push(0, Op::FinderNew { rev, needle, cfg, dst: f });
+        let n = self.threads.len();
+        let mut holders = vec![(0usize, f)];
+        for to in 1..n {
+            self.push(0, Op::Share { s: f, to });
+            let rd = self.slot(to);
+            self.push(to, Op::Recv { from: 0, dst: rd });
+            holders.push((to, rd));
+        }
+        let first = self.rng.usize_below(n);
+        for &(th, s) in &holders {
+            if th == first {
+                self.push(th, Op::FinderFind { f: s, hay, via_ref: false });
+                continue;
+            }
+            match self.rng.below(3) {
+                0 => self.push(th, Op::FinderFind { f: s, hay, via_ref: true }),
+                1 => {
+                    let d = self.slot(th);
+                    self.push(th, Op::FinderClone { f: s, dst: d });
+                    self.push(th, Op::FinderFind { f: d, hay, via_ref: false });
+                    self.push(th, Op::Drop { s: d });
+                }
+                _ => {
+                    let it = self.slot(th);
+                    self.push(th, Op::FIterNew { f: Some(s), rev, hay, needle, dst: it });
+                    self.push(th, Op::FIterNext { it });
+                    self.push(th, Op::FIterNext { it });
+                    self.push(th, Op::Drop { s: it });
+                }
+            }
+        }
+        for &(th, s) in &holders {
+            self.push(th, Op::FinderFind { f: s, hay, via_ref: false });
+            self.push(th, Op::Drop { s });
+        }
+    }
+
+    /// Every thread builds finders for its own long needle at the same time,
+    /// then for the others': whatever construction shares between finders
+    /// (a memo, a table) is written by several threads at once.
+    fn scn_concurrent_construction(&mut self) {
+        if self.full() || self.threads.len() < 2 {
+            return;
+        }
+        let n = self.threads.len();
+        let len = self.rng.range(128, 150);
+        let alpha = inputs::alphabet(&mut self.rng);
+        let base = inputs::structured(&mut self.rng, len, &alpha);
+        let rev = self.rng.chance(2, 3);
+        let mut needles = Vec::new();
+        let mut hays = Vec::new();
+        for t in 0..n {
+            let mut nb = base.clone();
+            // same length, different period structure
+            let at = self.rng.usize_below(len);
+            nb[at] = nb[at].wrapping_add(1 + t as u8);
+            if t % 2 == 1 {
+                nb.rotate_left(len / 3);
+            }
+            let plen = self.rng.range(4, 24);
+            let mut h = inputs::word(&mut self.rng, plen, &alpha);
+            h.extend_from_slice(&nb);
+            h.extend_from_slice(&nb[..len / 2]);
+            hays.push(self.buf(h, None));
+            needles.push(self.buf(nb, None));
+        }
+        let cfg = FinderCfg { prefilter: true, ranker: Ranker::Default };
+        for round in 0..3 {
+            for t in 0..n {
+                let which = match round {
+                    0 | 1 => t,
+                    _ => (t + 1) % n,
+                };
+                let f = self.slot(t);
+                self.push(t, Op::FinderNew { rev, needle: needles[which], cfg: cfg.clone(), dst: f });
+                self.push(t, Op::FinderFind { f, hay: hays[which], via_ref: false });
+                self.push(t, Op::FinderFind { f, hay: hays[(which + 1) % n], via_ref: false });
+                self.push(t, Op::Drop { s: f });
+            }
+        }
+    }
+
     /// Counting over a large, regular haystack (fixed-width records, constant
     /// fill): tens of thousands of matches, the same lane matching in hundreds
     /// of consecutive vectors.
@@ -860,6 +965,81 @@ impl B {
         self.push(t, Op::Lockstep { needle, cfgs, hays, iter, inert_at });
     }
 
+    /// C16: one finder, one piece of memory whose contents change between
+    /// searches (a read buffer that is refilled). Whatever a finder remembers
+    /// about a haystack, its address is not the haystack.
+    fn scn_refill(&mut self, t: usize, max_hay: usize, max_needle: usize) {
+        if self.full() {
+            return;
+        }
+        let (mut needle_bytes, _) = inputs::sub_pair(&mut self.rng, 64, max_needle);
+        if needle_bytes.is_empty() {
+            needle_bytes = vec![b'q', b'z'];
+        }
+        let len = match self.rng.below(4) {
+            0 => self.rng.range(needle_bytes.len(), needle_bytes.len() + 80),
+            1 => self.rng.range(512, 700),
+            _ => inputs::len_biased(&mut self.rng, max_hay).max(needle_bytes.len() + 1),
+        };
+        // first contents: made of bytes the needle does not have (no match,
+        // no candidate), or of the needle's own bytes
+        let absent: Vec<u8> = (0..=255u8).filter(|b| !needle_bytes.contains(b)).take(3).collect();
+        let alpha: Vec<u8> = if self.rng.chance(2, 3) && !absent.is_empty() { absent } else { needle_bytes.clone() };
+        let first = inputs::word(&mut self.rng, len, &alpha);
+        let mut versions: Vec<Vec<u8>> = Vec::new();
+        for _ in 0..self.rng.range(1, 3) {
+            let mut h = if self.rng.chance(1, 2) {
+                first.clone()
+            } else {
+                inputs::structured(&mut self.rng, len, &needle_bytes)
+            };
+            h.resize(len, alpha[0]);
+            if self.rng.chance(4, 5) && len >= needle_bytes.len() {
+                let at = match self.rng.below(3) {
+                    0 => 0,
+                    1 => len - needle_bytes.len(),
+                    _ => self.rng.range(0, len - needle_bytes.len()),
+                };
+                h[at..at + needle_bytes.len()].copy_from_slice(&needle_bytes);
+            }
+            versions.push(h);
+        }
+        let rev = self.rng.chance(1, 3);
+        let needle = self.buf(needle_bytes, None);
+        let cfg = self.finder_cfg();
+        let f = self.slot(t);
+        self.push(t, Op::FinderNew { rev, needle, cfg, dst: f });
+        let base = self.buf(first, None);
+        let mut ids = vec![base];
+        for v in versions {
+            self.bufs.push(Buf { bytes: v, place: Place::Over(base) });
+            ids.push(self.bufs.len() - 1);
+        }
+        let mut cur = base;
+        for step in 0..self.rng.range(2, 7) {
+            if self.full() {
+                break;
+            }
+            if step > 0 && self.rng.chance(2, 3) {
+                cur = *self.rng.pick(&ids);
+                self.push(t, Op::Refill { buf: cur });
+            }
+            if self.rng.chance(1, 5) {
+                // a complete traversal, dropped before the memory changes again
+                let it = self.slot(t);
+                self.push(t, Op::FIterNew { f: Some(f), rev, hay: cur, needle, dst: it });
+                for _ in 0..self.rng.range(1, 4) {
+                    self.push(t, Op::FIterNext { it });
+                }
+                self.push(t, Op::Drop { s: it });
+            } else {
+                let via_ref = self.rng.chance(1, 4);
+                self.push(t, Op::FinderFind { f, hay: cur, via_ref });
+            }
+        }
+        self.push(t, Op::Drop { s: f });
+    }
+
     fn scn_cost(&mut self, t: usize) {
         let max_log = self.tgt.cost_max_log2.max(8);
         let nlog = self.rng.range(8, max_log as usize) as u32;
@@ -1005,8 +1185,11 @@ pub fn generate(profile: Profile, verif_seed: u64, index: u64, tgt: Target) -> F
                     b.scn_byte_oneshots(t, 1, true, false, 40);
                 }
             }
-            if b.rng.chance(2, 3) {
-                b.scn_shared_finder_race(40, 40, 2);
+            match b.rng.below(8) {
+                0 | 1 => b.scn_shared_finder_race(40, 40, 2),
+                2 | 3 => b.scn_copy_vs_first_use(),
+                4 | 5 | 6 => b.scn_concurrent_construction(),
+                _ => {}
             }
             env.dispatch = Dispatch::Fresh;
             let reference =
@@ -1038,7 +1221,9 @@ pub fn generate(profile: Profile, verif_seed: u64, index: u64, tgt: Target) -> F
             for _ in 0..scen {
                 let t = b.rng.usize_below(nthreads.saturating_sub(1).max(1));
                 let (mh, mn) = (b.max_hay(400), 80);
-                match b.rng.below(7) {
+                match b.rng.below(9) {
+                    7 => b.scn_copy_vs_first_use(),
+                    8 => b.scn_concurrent_construction(),
                     0 => b.scn_byte_iter(t, false, true, mh),
                     1 => b.scn_finder_reuse(t, mh, mn, false),
                     2 => b.scn_sub_iter(t, mh, mn, false),
@@ -1079,6 +1264,15 @@ pub fn generate(profile: Profile, verif_seed: u64, index: u64, tgt: Target) -> F
                 b.scn_byte_iter(t, false, false, mh);
             }
         }
+        Profile::C07 if index == 99 && !tgt.scale_small && tgt.huge => {
+            // one episode per run: counts that only fit in more than 32 bits
+            let len = (1u64 << 32) + 4096 + b.rng.below(4096);
+            for be in [Backend::Top, Backend::Avx2, Backend::Sse2] {
+                let holes: Vec<u64> = (0..b.rng.range(0, 6)).map(|i| (i as u64 + 1) * 700_000_007 % len).collect();
+                b.push(0, Op::HugeCount { be, len, holes });
+            }
+            env.sched = Sched::Sequential;
+        }
         Profile::C07 => {
             let k = b.rng.range(1, 3);
             for _ in 0..k {
@@ -1105,6 +1299,18 @@ pub fn generate(profile: Profile, verif_seed: u64, index: u64, tgt: Target) -> F
                 };
                 b.push(0, Op::Byte { be, f: ByteFn::Count, arity: 1, n, hay, raw });
             }
+        }
+        Profile::C08 | Profile::C14 if index == 99 && !tgt.scale_small && tgt.huge => {
+            // one episode per run: a search that skips more than 4 GiB
+            let mut needle = vec![b'e'; 44];
+            needle[0] = b'z';
+            needle[1] = b'q';
+            needle[43] = b'k';
+            let needle = b.buf(needle, None);
+            let len = (1u64 << 32) + (300 << 20);
+            let at = 3u64 << 30;
+            b.push(0, Op::HugeFindIter { needle, len, at });
+            env.sched = Sched::Sequential;
         }
         Profile::C08 => {
             let k = b.rng.range(1, 2);
@@ -1153,10 +1359,14 @@ pub fn generate(profile: Profile, verif_seed: u64, index: u64, tgt: Target) -> F
             for _ in 0..k {
                 let t = b.rng.usize_below(nthreads.saturating_sub(1).max(1));
                 let (mh, mn) = (b.max_hay(1200), 300);
-                match b.rng.below(10) {
+                match b.rng.below(12) {
                     0..=5 => b.scn_finder_reuse(t, mh, mn, true),
                     6..=8 => b.scn_sub_iter(t, mh, mn, true),
-                    _ => b.scn_related_finders(t, t, mh),
+                    9 => b.scn_related_finders(t, t, mh),
+                    // memory that changes under a live iterator would be the
+                    // harness' own aliasing bug under the interpreter
+                    _ if tgt.miri => b.scn_finder_reuse(t, mh, mn, true),
+                    _ => b.scn_refill(t, mh, mn),
                 }
             }
         }
